@@ -42,7 +42,7 @@ use sv_harness::globals;
 use sv_harness::run_cases;
 use sv_harness::take_transcript;
 
-const FILE: &str = "case.star";
+const FILE: &str = "main0.star";
 
 struct Printer;
 impl PrintHandler for Printer {
